@@ -51,7 +51,7 @@ Qed.
 (* the operations that grow sequence i *)
 Definition grows (o : op) (i : nat) : Prop :=
   match o with
-  | OAppend i' _ _ _ | OFinalize i' | OExtend i' _ _ _ | OExtendSeq i' _ _ => i' = i
+  | OAppend i' _ _ _ | OFinalize i' | OExtend i' _ _ _ | OExtendSeq i' _ _ | OExtendBad i' _ _ _ _ => i' = i
   | _ => False
   end.
 
@@ -73,6 +73,13 @@ Proof.
   - destruct (is_live st i && is_live st j0) eqn:L; simpl; auto.
     apply andb_prop in L. destruct L as (L & _). apply is_live_lt in L.
     apply (isolated_from_frame st _ i W L); auto. apply (extend_spec st i bpr true _ _ W L).
+  - (* a refused extend *)
+    destruct (is_live st i) eqn:L; simpl; auto. apply is_live_lt in L.
+    destruct pre.
+    + destruct good; [destruct (match offs _ with [] => _ | _ => _ end); simpl; auto|]. simpl.
+      apply (isolated_from_frame st _ i W L); auto. apply (extend_gen_spec st i bpr true _ false extra W L).
+    + destruct (_ && _); simpl; auto.
+      apply (isolated_from_frame st _ i W L); auto. apply (extend_gen_spec st i bpr false _ false 0 W L).
 Qed.
 
 (* ---------------------------------------------------------------- own contents: growth *)
@@ -121,6 +128,30 @@ Lemma own_extend_seq st i bpr j : reachable st -> is_live st i = true -> is_live
 Proof.
   intros R L Lj. pose proof (reachable_wf st R) as W. simpl. rewrite L, Lj. simpl. apply is_live_lt in L.
   apply (extend_spec st i bpr true _ _ W L).
+Qed.
+
+(* extend(good ++ [refused element] ++ more): the good elements are kept, an error is reported *)
+Lemma own_extend_bad st i bpr pre good extra : reachable st -> is_live st i = true ->
+  scache (getseq st i) = None ->
+  let st' := fst (step st (OExtendBad i bpr pre good extra)) in
+  (exists e, snd (step st (OExtendBad i bpr pre good extra)) = RErr e) /\
+  C st' i = spec_extend (C st i) good /\ scache (getseq st i) = None.
+Proof.
+  intros R L Hc. pose proof (reachable_wf st R) as W. simpl. rewrite L. apply is_live_lt in L.
+  assert (E0 : forall g, Forall (fun e => e = []) g -> spec_extend (C st i) g = C st i).
+  { induction g as [|e g IH]; intros HF; [reflexivity|]. inversion HF; subst. simpl. apply IH; auto. }
+  destruct pre.
+  - destruct good as [|g0 good].
+    + destruct (match offs _ with [] => _ | _ => _ end); simpl; (split; [eexists; reflexivity|auto]).
+    + simpl. split; [eexists; reflexivity|split; [|auto]].
+      apply (extend_gen_spec st i bpr true (g0 :: good) false extra W L).
+  - destruct (_ && forallb _ good) eqn:EB; simpl.
+    + split; [eexists; reflexivity|split; [|auto]].
+      apply andb_prop in EB. destruct EB as (_ & EB). symmetry. apply E0.
+      apply Forall_forall. intros e He. rewrite forallb_forall in EB. specialize (EB e He). destruct e; auto; discriminate.
+    + split; [eexists; reflexivity|split; [|auto]].
+      destruct (extend_gen_spec st i bpr false good false 0 W L) as (_ & _ & CT & _).
+      unfold C. rewrite CT. rewrite full_no_cache; auto.
 Qed.
 
 Lemma own_new st bytes bpr pre els : reachable st ->
